@@ -205,7 +205,7 @@ def run(scn):
     stall = sum(b for a, b in (m.get("cmd_ready") or [])) + 1
     nbeats = sum(len(o["beats"]) if o["kind"] == "w" else o["n"] for o in ops)
     gaps = sum(b.get("gap", 0) for o in ops if o["kind"] == "w" for b in o["beats"]) + sum(o.get("delay", 0) for o in ops)
-    cap = 600 + gaps + nbeats * (ratio * (stall + 6) + max(m.get("extra") or [0]) + m.get("rl1", 3) + 14)
+    cap = 600 + gaps + nbeats * (ratio * (stall + 8 + max(m.get("extra") or [0]) + m.get("rl1", 3) + m.get("wl1", 1)) + 14)
     need_quiet = 60 + max([b for a, b in (m.get("cmd_ready") or [])] or [0]) + max(m.get("extra") or [0]) + m.get("rl1", 3) + 8 * ratio
     if core:
         cap = 2 * cap + 3000 + 100 * ratio * nbeats
